@@ -20,7 +20,8 @@ input Filter { q: String = "x", min: Int, roles: [Role!] = [USER], nested: Filte
 input Pick @oneOf { byId: ID, byName: String, byFilter: Filter }
 type Query { me: User node(id: ID!): Node named: [Named] search(term: String!, limit: Int = 3): [SearchResult!] nnMe: User!
   users: [User!] echo(i: Int, o: Filter, l: [Int!], nn: [Int!]! = [1]): String pets: [Pet]
-  byPick(p: Pick!, l: [Pick!], d: Pick = {byId: 1}): String }
+  byPick(p: Pick!, l: [Pick!], d: Pick = {byId: 1}): String
+  filt(fs: [Filter!], deep: [[Filter]], one: [Filter!]! = {req: true}): String }
 type Mutation { setName(name: String!): User bump(by: Int = 1): Int rename(id: ID!, to: String = "x"): Named echo(i: Int): String }
 type Subscription { userEvents(kind: Role = USER): User ticks: Int namedEvents: Named }
 '''
